@@ -61,6 +61,7 @@ Section ActInd.
   Hypothesis HNotify : P ANotify.
   Hypothesis HNoRoute : forall p, Forall P p -> P (ANoRoute p).
   Hypothesis HNotifyNR : P ANotifyNR.
+  Hypothesis HRep : forall n a, P a -> P (ARep n a).
 
   Fixpoint act_ind' (a : act) : P a :=
     let fix go (l : list act) : Forall P l :=
@@ -74,6 +75,7 @@ Section ActInd.
     | ANotify => HNotify
     | ANoRoute p => HNoRoute p (go p)
     | ANotifyNR => HNotifyNR
+    | ARep n b => HRep n b (act_ind' b)
     end.
 End ActInd.
 
@@ -230,9 +232,22 @@ Section Prims.
      ENoRoute (ntags s) :: ECb (ntags s) RNoService :: snd (exec_prog M p (set_ntags s (ntags s + 1)))).
   Proof. reflexivity. Qed.
 
+  (* a bulk action is the action, n times *)
+  Lemma exec_rep n a s : exec M (ARep n a) s = exec_prog M (repeat a (Z.to_nat n)) s.
+  Proof.
+    change (exec M (ARep n a) s) with
+      ((fix rep (k : nat) (s0 : st) {struct k} : st * list ev :=
+          match k with
+          | O => (s0, [])
+          | S k' => let r1 := exec M a s0 in let r2 := rep k' (fst r1) in (fst r2, snd r1 ++ snd r2)
+          end) (Z.to_nat n) s).
+    generalize (Z.to_nat n). intro k. revert s. induction k as [|k IH]; intro s; [reflexivity|].
+    cbn [repeat exec_prog]. rewrite <- IH. reflexivity.
+  Qed.
+
   Lemma exec_is_chain a : exec_chain a.
   Proof.
-    induction a as [p _|p _| |p IH|] using act_ind'; intros f s tr.
+    induction a as [p _|p _| |p IH| |n a IHa] using act_ind'; intros f s tr.
     - change (exec M (AReq p) s) with (register M s false p).
       eapply istar_step; [apply IReg | apply istar_refl].
     - change (exec M (AUnser p) s) with (register M s true p).
@@ -247,6 +262,8 @@ Section Prims.
               snd (exec_prog M p (set_ntags s (ntags s + 1)))).
       rewrite app_assoc. apply exec_prog_chain. exact IH.
     - change (exec M ANotifyNR s) with (s, @nil ev). cbn [fst snd]. rewrite app_nil_r. apply istar_refl.
+    - rewrite exec_rep. apply exec_prog_chain. apply Forall_forall. intros x I.
+      apply repeat_spec in I. subst x. exact IHa.
   Qed.
 
   Lemma exec_prog_istar p f s tr :
@@ -380,10 +397,23 @@ Section Prims.
     exists e. split; [reflexivity | lia].
   Qed.
 
+  (* the plain reading of [order] *)
+  Lemma order_unfold h s :
+    order M h s =
+    dedup [] (flat_map (fun t => filter (fun id => tag_is s id t) (expired_ids M s)) h ++ expired_ids M s).
+  Proof.
+    unfold order. cbv zeta. f_equal. f_equal. apply flat_map_ext. intro t.
+    generalize (expired_ids M s). intro E. induction E as [|id E IH]; [reflexivity|].
+    cbn [map filter]. unfold tag_match at 1, tag_is at 1, otag at 1. cbn [fst].
+    destruct (aget id (pending s)) as [e|]; cbn [option_map].
+    - destruct (e_tag e =? t); cbn [map snd]; rewrite IH; reflexivity.
+    - exact IH.
+  Qed.
+
   Lemma order_spec h s :
     NoDup (order M h s) /\ forall id, In id (order M h s) -> In id (expired_ids M s).
   Proof.
-    unfold order. destruct (dedup_spec
+    rewrite order_unfold. destruct (dedup_spec
       (flat_map (fun t => filter (fun id => tag_is s id t) (expired_ids M s)) h ++ expired_ids M s) [])
       as [N S].
     split; [exact N|]. intros id I. destruct (S id I) as [I1 _].
@@ -1790,7 +1820,7 @@ Section Scan.
     destruct (block M (foc s) (pending s)) as [|x m] eqn:P; cbn [isnil fst].
     - cbn [set_armed pending]. intros G I. exfalso. eapply block_nil_none; eassumption.
     - destruct (fire_all_facts (fun id => inc_of M id = foc s) (order M h s) s) as (_ & _ & K). apply K.
-      intros id' e' H I L. unfold order. apply dedup_complete; [|intros []].
+      intros id' e' H I L. rewrite order_unfold. apply dedup_complete; [|intros []].
       apply in_or_app. right. unfold expired_ids. apply filter_In. split.
       + apply aget_in in H. apply (in_map fst) in H. exact H.
       + unfold expired_b. rewrite H. apply andb_true_iff. split; lia.
@@ -3086,10 +3116,10 @@ Section Rehint.
     intros S D. destruct (order_spec M h s) as [ND Sub].
     assert (NE : NoDup (expired_ids M s)).
     { unfold expired_ids. apply NoDup_filter. apply sorted_nodup_keys. exact S. }
-    unfold order at 1. rewrite flat_map_concat_map, map_map, <- flat_map_concat_map.
+    rewrite (order_unfold M (map (tag_at s) (order M h s)) s). rewrite flat_map_concat_map, map_map, <- flat_map_concat_map.
     rewrite (flat_map_singleton (fun id => filter (fun id' => tag_is s id' (tag_at s id)) (expired_ids M s))).
     - apply dedup_app_self; [exact ND | intros x _ [] |].
-      intros x I. left. unfold order. apply dedup_complete; [|intros []]. apply in_or_app. right. exact I.
+      intros x I. left. rewrite order_unfold. apply dedup_complete; [|intros []]. apply in_or_app. right. exact I.
     - intros id I. apply filter_singleton; [exact NE | apply Sub; exact I|].
       intros x Ix. destruct (expired_in M s x Ix) as (ex & Gx & _).
       destruct (expired_in M s id (Sub id I)) as (ei & Gi & _).
